@@ -243,7 +243,12 @@ def freeClosures (sk : Skeleton) (s : State) (c : Nat) : Nat → Bool :=
 
 /-- the ids `callStart` registers -/
 def newClosures (sk : Skeleton) (s : State) (nCl : Nat) : List Nat :=
-  if sk.stubFuncArgsRegistered = true then List.range' s.nextClosure nCl else []
+  if sk.stubFuncArgsRegistered = true then
+    -- a fresh id per registration (`clIdFresh`: a UUID); an id derived from the table's current SIZE instead repeats as
+    -- soon as an earlier call has returned while a later one is pending
+    List.range' (if sk.clIdFresh = true then s.nextClosure
+                 else ((List.range s.nextClosure).filter (fun id => s.closures id)).length) nCl
+  else []
 
 /-- does the return of call `c` run a `freeClosure()` (and so take `closuresLock`)? -/
 def releases (sk : Skeleton) (s : State) (c : Nat) : Prop :=
